@@ -88,7 +88,7 @@ type c08Delim struct {
 	quoted     bool
 }
 
-var c08Delims = []c08Delim{{"E", "E", false}, {"'E'", "E", true}, {`"E"`, "E", true}, {`E\F`, "EF", true}}
+var c08Delims = []c08Delim{{"E", "E", false}, {"'E'", "E", true}, {`"E"`, "E", true}, {`E\F`, "EF", true}, {`E""`, "E", true}, {`''E`, "E", true}}
 
 // c08Render builds the source: after every line the bodies of its sites follow in operator order.
 func c08Render(t []string, sites []c08Site) string {
